@@ -31,22 +31,23 @@ def is_cursor_type(t):
 
 class Alt(object):
     """k: cursor -> known characters; le / lt: pairs (a, b) with a <= b / a < b (a trails b)."""
-    __slots__ = ('k', 'le', 'lt', 'past', 'assoc', 'nz')
+    __slots__ = ('k', 'le', 'lt', 'past', 'assoc', 'nz', 'mn')
 
-    def __init__(self, k=None, le=None, lt=None, past=None, assoc=None, nz=None):
+    def __init__(self, k=None, le=None, lt=None, past=None, assoc=None, nz=None, mn=None):
         self.k = k or {}
         self.le = le or frozenset()
         self.lt = lt or frozenset()
         self.past = past or frozenset()     # cursors that may stand one past their terminator
         self.assoc = assoc or {}            # local id -> ('char', cursor, j) | ('digit', cursor, j, n)
         self.nz = nz or frozenset()         # char locals known to be non-zero
+        self.mn = mn or frozenset()         # cursors that may be null (result of strchr & co, not yet tested)
 
     def copy(self):
-        return Alt(dict(self.k), self.le, self.lt, self.past, dict(self.assoc), self.nz)
+        return Alt(dict(self.k), self.le, self.lt, self.past, dict(self.assoc), self.nz, self.mn)
 
     def key(self):
         return (tuple(sorted((a, b) for a, b in self.k.items() if b)), tuple(sorted(self.le)), tuple(sorted(self.lt)),
-                tuple(sorted(self.past)), tuple(sorted(self.assoc.items())), tuple(sorted(self.nz)))
+                tuple(sorted(self.past)), tuple(sorted(self.assoc.items())), tuple(sorted(self.nz)), tuple(sorted(self.mn)))
 
     def shift(self, v, j):
         """cursor v moved forward by j: associations keep denoting the same characters."""
@@ -222,6 +223,9 @@ class CursorAnalysis(object):
         """Obligation for reading at offset j (what='read beyond') or advancing by j."""
         nm = self.cursors[cid].get('name')
         k = len(alt.get(cid))
+        if cid in alt.mn:
+            self.oblige(node, 'use of %s' % nm, False, '%s holds the result of a search that may be null and has not been tested' % nm)
+            return
         if what == 'read beyond':
             ok = k >= j and (cid not in alt.past or k > 0 or j < 0)
             if j < 0:
@@ -317,6 +321,17 @@ class CursorAnalysis(object):
                 for s in outs:
                     nxt += self.effects(a, s)
                 outs = self._cap(nxt)
+            # a cursor handed to a function that reads characters through it must point at a character (or the
+            # terminator), not one past it
+            if k == 'CallExpr' and callee(x) and callee(x)[0] == 'fn' and callee(x)[1].get('_qn', '').startswith('cctz'):
+                for a in call_args(x):
+                    p = self.ptr(a)
+                    if p is not None and p[1] == 0:
+                        for s in outs:
+                            if p[0] in s.past and len(s.get(p[0])) == 0:
+                                self.oblige(x, 'pass %s to %s' % (self.cursors[p[0]].get('name'), callee(x)[1].get('name')), False,
+                                            '%s may stand one past the terminator of its string here and the callee reads through it'
+                                            % self.cursors[p[0]].get('name'))
             # a cursor whose address is passed may be changed by the callee
             for a in call_args(x):
                 pa = peel(a, explicit=False)
@@ -339,6 +354,13 @@ class CursorAnalysis(object):
         res = []
         for s in outs:
             a2 = s.copy()
+            if op == '=':
+                rr = peel(rhs, explicit=False)
+                maynull = rr is not None and rr.get('kind') == 'CallExpr' and callee(rr) and callee(rr)[0] == 'fn' and \
+                    callee(rr)[1].get('name') in ('strchr', 'strrchr', 'memchr', 'strpbrk', 'strstr')
+                a2.mn = (a2.mn - {cid}) | ({cid} if maynull else frozenset())
+            elif cid in a2.mn:
+                self.oblige(node, 'use of %s' % self.cursors[cid].get('name'), False, 'arithmetic on a pointer that may be null')
             if op in ('+=', '-='):
                 outs2 = self.effects(rhs, s)
                 for s2 in outs2:
@@ -588,6 +610,22 @@ class CursorAnalysis(object):
         k = x.get('kind')
         if k == 'UnaryOperator' and x.get('opcode') == '!':
             return self.refine(kids(x)[0], alt, not truth)
+        # null tests of a cursor: p, p != nullptr, p == nullptr
+        if alt.mn:
+            tested, nonnull = None, None
+            if k == 'DeclRefExpr' and self.ptr(x) is not None and self.ptr(x)[1] == 0:
+                tested, nonnull = self.ptr(x)[0], truth
+            elif k == 'BinaryOperator' and x.get('opcode') in ('==', '!='):
+                a_, b_ = kids(x)
+                for (p_, q_) in ((a_, b_), (b_, a_)):
+                    pq = peel(q_)
+                    if pq is not None and pq.get('kind') in ('CXXNullPtrLiteralExpr', 'GNUNullExpr') and self.ptr(p_) is not None and self.ptr(p_)[1] == 0:
+                        tested, nonnull = self.ptr(p_)[0], (x['opcode'] == '!=') == truth
+            if tested is not None and tested in alt.mn:
+                a2 = alt.copy()
+                if nonnull:
+                    a2.mn = a2.mn - {tested}
+                return [a2]
         if k == 'BinaryOperator' and x.get('opcode') == '&&':
             a, b = kids(x)
             if truth:
